@@ -213,6 +213,39 @@ class _path:
 
 class model_os:
     path = _path
+    import os as _real
+    O_WRONLY, O_RDWR, O_CREAT, O_TRUNC, O_EXCL, O_APPEND = (_real.O_WRONLY, _real.O_RDWR, _real.O_CREAT, _real.O_TRUNC,
+                                                            _real.O_EXCL, _real.O_APPEND)
+    O_BINARY = getattr(_real, 'O_BINARY', 0)
+    O_NOFOLLOW = getattr(_real, 'O_NOFOLLOW', 0)
+    O_CLOEXEC = getattr(_real, 'O_CLOEXEC', 0)
+    del _real
+
+    @staticmethod
+    def open(path, flags, mode=0o777):
+        """POSIX open(2) on the model: an existing name gives the existing inode (truncated with O_TRUNC)"""
+        proc = CURRENT[0]
+        fs = proc.fs
+        fs.events += 1
+        if proc.dead:
+            return -1
+        if path in fs.names:
+            if flags & model_os.O_EXCL and flags & model_os.O_CREAT:
+                raise FileExistsError(path)
+            ino = fs.names[path]
+            if flags & model_os.O_TRUNC:
+                fs.inodes[ino] = b''
+            return ino
+        if not flags & model_os.O_CREAT:
+            raise FileNotFoundError(path)
+        fs.counter += 1
+        fs.inodes[fs.counter] = b''
+        fs.names[path] = fs.counter
+        return fs.counter
+
+    @staticmethod
+    def close(fd):
+        return None
 
     @staticmethod
     def fdopen(fd, mode='wb'):
